@@ -267,14 +267,12 @@ static int wait_quiescent(void)
     double t0 = now();
     int    stable = 0;
     for (unsigned long it = 0;; it++) {
-        qthread_yield();
         if (quiescent(why)) {
-            /* twice in a row, with a yield in between (lets a just-released task leave the ready queue) */
-            if (++stable >= 2) return 1;
+            if (++stable >= 2) return 1;     /* observed twice in a row */
         } else {
             stable = 0;
         }
-        if ((it & 63) == 63) {
+        if ((it & 15) == 15) {
             if (now() - t0 > 4.0) { printf("STUCK %s\n", why); fflush(stdout); return 0; }
             sched_yield();
         }
@@ -348,13 +346,13 @@ static int run_step(task_t *T)
     return 1;
 }
 
-int main(void)
+/* The controller is a plain pthread (not a qthread): it never occupies a worker, so the runtime's own scheduling of the
+ * main task plays no role.  It releases one task for one call at a time and polls the audit until the runtime is quiescent. */
+static volatile int runtime_up = 0;
+static void *controller(void *unused)
 {
     char line[1024];
-    setvbuf(stdout, NULL, _IOFBF, 1 << 16);
-    signal(SIGALRM, on_alarm);
-    alarm(60);
-    qthread_initialize();
+    while (!runtime_up) sched_yield();
     printf("H %d %d\n", (int)qthread_num_shepherds(), (int)qthread_num_workers());
     fflush(stdout);
     while (fgets(line, sizeof(line), stdin)) {
@@ -379,7 +377,7 @@ int main(void)
             for (int i = 0; i < nt; i++) { S->T[i].id = i; S->T[i].buf = SENT; qthread_fork_to(task_main, &S->T[i], NULL, i % qthread_num_shepherds()); }
             for (int e = 0; e < ne; e++) { task_t *T = &S->T[nt + e]; T->id = nt + e; T->is_ext = 1; T->buf = SENT; pthread_create(&T->pt, NULL, ext_main, T); pthread_detach(T->pt); }
             for (int k = 0; k < np; k++) S->P[k].k = k;
-            for (int i = 0; i < nt + ne; i++) while (S->T[i].self == NULL) qthread_yield();
+            for (int i = 0; i < nt + ne; i++) while (S->T[i].self == NULL) sched_yield();
             printf("s\n"); fflush(stdout);
             continue;
         }
@@ -424,4 +422,22 @@ int main(void)
     }
     fflush(stdout);
     _exit(0);
+    return NULL;
+}
+
+static aligned_t park_word;
+
+int main(void)
+{
+    pthread_t ctl;
+    setvbuf(stdout, NULL, _IOFBF, 1 << 16);
+    signal(SIGALRM, on_alarm);
+    alarm(60);
+    pthread_create(&ctl, NULL, controller, NULL);   /* before the runtime pins the main pthread: the controller stays unpinned */
+    qthread_initialize();
+    qthread_empty(&park_word);
+    __sync_synchronize();
+    runtime_up = 1;
+    qthread_readFF(NULL, &park_word);      /* the main task parks for good; its worker serves the script tasks */
+    return 0;
 }
